@@ -169,21 +169,180 @@ static void vf_native(void)
                 assumptions=["two's-complement wrap of the int product (see C13.law_uniform)"])
 
 
+def unit_gibbs_draw(cls):
+    """Gaussian values drawn under interval constraints lie within their bounds: the draw step of the Gibbs samplers uses the truncated sampler, with the
+    standardised bounds of the sample, whenever a bound is defined"""
+    mono = cls == "GibbsMultiMono"
+    pre = """
+typedef _Bool bool;
+#define true 1
+#define false 0
+#define TEST 1.234e30
+#define TEST_COMP 1.000e30
+#define THRESH_INF -10
+#define THRESH_SUP 10
+#define FFFF(x) ((x) != (x) || (x) > TEST_COMP)
+#define DECLARE_UNUSED(x) (void)(x)
+#define SAMED(x, y) ((x) == (y) || ((x) != (x) && (y) != (y)))
+double __CPROVER_uninterpreted_sqrt(double);
+static double sqrt(double x) { return __CPROVER_uninterpreted_sqrt(x); }
+bool _flagDecay; int _nburn;
+int g_plain, g_trunc; double g_a, g_b;
+static double law_gaussian(void) { g_plain++; return W_plain; }
+static double law_gaussian_between_bounds(double a, double b) { g_trunc++; g_a = a; g_b = b; return W_draw; }
+static int getSampleRank(int iact) { return iact; }
+static int getRank(int ipgs, int ivar) { return 0; }
+static double getRho(void) { return W_rho; }
+"""
+    decay = Fn("AGibbs::_getBoundsDecay", "src/Gibbs/AGibbs.cpp", r"^void AGibbs::_getBoundsDecay\(int iter, double \*vmin, double \*vmax\) const\s*$",
+               csig="void _getBoundsDecay(int iter, double *vmin, double *vmax)")
+    rw = [(r"const Db\* db = getDb\(\);", ";", 1), (r"db->getLocVariable\(ELoc::L,iech, icase\)", "W_lo", 1), (r"db->getLocVariable\(ELoc::U,iech, icase\)", "W_up", 1)]
+    if mono:
+        rw.append((r"y\[icase0\]\[iact\]", "W_y1", 1))
+    f = Fn("%s::getSimulate" % cls, "src/Gibbs/%s.cpp" % cls, r"^double %s::getSimulate\(VectorVectorDouble& (/\*y\*/|y),[^{]*?int iter\)\s*$" % cls,
+           csig="double getSimulate(double yk, double sk, int icase, int ipgs, int ivar, int iact, int iter)", rewrites=rw)
+    h = """
+void vf_harness(void)
+{
+  vf_havoc_inputs();
+  _flagDecay = W_decay ? 1 : 0; _nburn = W_nburn; g_plain = 0; g_trunc = 0;
+  __CPROVER_assume(W_sk > 0. && W_nburn > 0 && W_iter >= 0);
+  double v = getSimulate(W_yk, W_sk, 0, 0, W_ivar, 0, W_iter);
+  /* the bounds in force at this iteration (real _getBoundsDecay) and the Gaussian variable they constrain */
+  double lo = W_lo, up = W_up; _getBoundsDecay(W_iter, &lo, &up);
+  double m = W_yk, sd = W_sk;
+  %s
+  /* the encoding of 'undefined' by a large value: a defined bound stays a defined value once standardised (excludes conditional st. dev. below ~1e-30 of the bound) */
+  if (!FFFF(lo)) __CPROVER_assume(!FFFF((lo - m) / sd));
+  if (!FFFF(up)) __CPROVER_assume(!FFFF((up - m) / sd));
+  if (FFFF(lo) && FFFF(up))
+    __CPROVER_assert(g_plain == 1 && g_trunc == 0 && SAMED(v, W_yk + W_sk * W_plain), "no bound defined: one plain Gaussian draw");
+  else
+  {
+    __CPROVER_assert(g_trunc == 1 && g_plain == 0, "a sample with a defined bound is always drawn with the truncated sampler");
+    __CPROVER_assert(FFFF(lo) ? FFFF(g_a) : SAMED(g_a, (lo - m) / sd), "the truncated sampler receives the standardised lower bound of the sample (undefined if there is none)");
+    __CPROVER_assert(FFFF(up) ? FFFF(g_b) : SAMED(g_b, (up - m) / sd), "the truncated sampler receives the standardised upper bound of the sample (undefined if there is none)");
+    __CPROVER_assert(SAMED(v, W_yk + W_sk * W_draw), "the value is the conditional mean plus the truncated draw scaled by the conditional standard deviation");
+  }
+  VF_REACH();
+}
+""" % ("if (W_ivar > 0) { double sqr = sqrt(1. - W_rho * W_rho); m = W_yk * sqr + W_rho * W_y1; sd = W_sk * sqr; }" if mono else "")
+    return Unit("C13.%s.getSimulate" % cls, [decay, f], prelude=pre, harness=h, pre_inputs="typedef _Bool bool;\n", unwind=2, checks=[], backends=("cvc5", "minisat"), timeout=600,
+                inputs=[("double", "W_yk"), ("double", "W_sk"), ("double", "W_lo"), ("double", "W_up"), ("double", "W_plain"), ("double", "W_draw"), ("double", "W_rho"), ("double", "W_y1"),
+                        ("bool", "W_decay"), ("int", "W_nburn"), ("int", "W_iter"), ("int", "W_ivar")],
+                claim=("%s::getSimulate (draw step of the Gibbs samplers; real text with the real AGibbs::_getBoundsDecay): whenever the sample has a lower or an upper bound in force, "
+                       "the value comes from the truncated sampler called with exactly the standardised bounds, never from the unconstrained generator; without bounds, one plain draw" % cls),
+                assumptions=["law_gaussian / law_gaussian_between_bounds are ghosts recording their arguments (the range of the truncated sampler itself is not under contract: transcendental rejection sampling)",
+                             "floating-point equalities of identical terms; sqrt uninterpreted", "a defined bound remains a defined value (< 1e30) after standardisation", "exact inclusion of yk + sk * t in [lower, upper] up to rounding is not claimed"],
+                canaries=[{"fn": "%s::getSimulate" % cls, "rx": r"if \(FFFF\(vmin\) && FFFF\(vmax\)\)", "rp": "if (FFFF(vmin) || FFFF(vmax))", "expect": r"assertion"}])
+
+
+def unit_data_to_target(NP=2, NDM=1):
+    """conditional simulations reproduce each datum exactly at a target coinciding with it — and only there: the final data-to-target
+    assignment of the turning bands (CalcSimuTurningBands::_updateData2ToTarget), point-target branch"""
+    pre = """
+typedef _Bool bool;
+#define true 1
+#define false 0
+#define NP %d
+#define NDM %d
+#define TEST 1.234e30
+#define TEST_COMP 1.000e30
+#define EPSILON6 1.e-6
+#define FFFF(x) ((x) != (x) || (x) > TEST_COMP)
+#define ELOC_GAUSFAC 11
+#define ELOC_SIMU 12
+int nondet_int(void);
+int g_oob, g_nset[NP]; double g_val[NP];
+static int _getNVar(void) { return 1; }
+static int getNbSimu(void) { return 1; }
+/* Db handles: 1 = dbin (W_nin samples), 2 = dbout (W_nout samples); every access is checked against the sample count of ITS data base */
+static int VF_getSampleNumber(int db) { return db == 1 ? W_nin : W_nout; }
+static int VF_getNDim(int db) { return W_ndim; }
+static double VF_getExtensionDiagonal(int db) { return 1.; }
+static const bool* VF_getActiveArray(int db) { return db == 1 ? W_actin : W_actout; }
+static bool VF_isGrid(int db) { return 0; }
+static void VF_getSampleCoordinatesInPlace(int db, int i, double* c)
+{
+  if (i < 0 || i >= VF_getSampleNumber(db)) { g_oob = 1; return; }
+  for (int d = 0; d < NDM; d++) c[d] = ((db == 1) ? W_cin[i * NDM + d] : W_cout[i * NDM + d]) ? 1. : 0.;
+}
+static int VF_coordinateToRank(int db, const double* c, bool centered, double eps) { return nondet_int(); }
+static void VF_rankToCoordinatesInPlace(int db, int rank, double* c) {}
+static double VF_getZVariable(int db, int i, int ivar) { if (db != 1 || i < 0 || i >= W_nin) { g_oob = 1; return 0.; } return W_z[i]; }
+static double VF_getSimvar(int db, int loc, int i, int isimu, int ivar, int icase, int nbsimu, int nvar) { return VF_getZVariable(db, i, 0); }
+static void VF_setSimvar(int db, int loc, int i, int isimu, int ivar, int icase, int nbsimu, int nvar, double v)
+{
+  if (db != 2 || i < 0 || i >= W_nout) { g_oob = 1; return; }
+  g_nset[i] = g_nset[i] + 1; g_val[i] = v;
+}
+""" % (NP, NDM)
+    f = Fn("CalcSimuTurningBands::_updateData2ToTarget", "src/Simulation/CalcSimuTurningBands.cpp",
+           r"^void CalcSimuTurningBands::_updateData2ToTarget\(Db \*dbin,[^{]*?bool flag_dgm\)\s*$",
+           csig="void _updateData2ToTarget(int dbin, int dbout, int icase, bool flag_pgs, bool flag_dgm)",
+           rewrites=[(r"VectorDouble coor1\(ndim\);", "double coor1[NDM];", 1), (r"VectorDouble coor2\(ndim\);", "double coor2[NDM];", 1),
+                     (r"VectorBool activeArrayIn = ", "const bool* activeArrayIn = ", 1), (r"VectorBool activeArrayOut = ", "const bool* activeArrayOut = ", 1),
+                     (r"DbGrid\* dbgrid = dynamic_cast<DbGrid\*>\(dbout\);", "int dbgrid = dbout;", 1),
+                     (r"ELoc::GAUSFAC", "ELOC_GAUSFAC", None), (r"ELoc::SIMU", "ELOC_SIMU", None),
+                     (r"\b(dbin|dbout|dbgrid)->(\w+)\(\)", r"VF_\2(\1)", None),
+                     (r"\b(dbin|dbout|dbgrid)->(\w+)\(", r"VF_\2(\1, ", None)])
+    h = """
+void vf_harness(void)
+{
+  vf_havoc_inputs();
+  __CPROVER_assume(1 <= W_nin && W_nin <= NP && 1 <= W_nout && W_nout <= NP && 1 <= W_ndim && W_ndim <= NDM);
+  for (int k = 0; k < NP; k++) { __CPROVER_assume(!FFFF(W_z[k])); g_nset[k] = 0; }
+  g_oob = 0;
+  _updateData2ToTarget(1, 2, 0, 0, 0);
+  __CPROVER_assert(!g_oob, "every sample is read from / written to the data base it belongs to, within its sample count");
+  for (int ik = 0; ik < NP; ik++) if (ik < W_nout)
+  {
+    /* is there an active datum at the location of THIS target?  which value may it receive? */
+    bool coincide = 0, value_ok = 0;
+    for (int ip = 0; ip < NP; ip++) if (ip < W_nin && W_actin[ip])
+    {
+      bool same = 1;                       /* lattice coordinates: same location iff every coordinate is equal */
+      for (int d = 0; d < NDM; d++) if (d < W_ndim && ((W_cout[ik * NDM + d] ? 1 : 0) != (W_cin[ip * NDM + d] ? 1 : 0))) same = 0;
+      if (same) { coincide = 1; if (g_nset[ik] > 0 && g_val[ik] == W_z[ip]) value_ok = 1; }
+    }
+    if (!W_actout[ik]) __CPROVER_assert(g_nset[ik] == 0, "a masked target is left untouched");
+    else
+    {
+      __CPROVER_assert((g_nset[ik] > 0) == coincide, "a target receives a datum exactly when an active datum lies at its own location");
+      if (coincide) __CPROVER_assert(value_ok, "the value it receives is the value of a datum lying at its own location");
+    }
+  }
+  VF_REACH();
+}
+"""
+    return Unit("C13.updateData2ToTarget.points", [f], prelude=pre, harness=h, pre_inputs="typedef _Bool bool;\n", unwind=NP * NDM + 2, checks=["--bounds-check", "--pointer-check"],
+                backends=("cvc5", "minisat", "cadical"), timeout=900,
+                inputs=[("int", "W_nin"), ("int", "W_nout"), ("int", "W_ndim"), ("bool", "W_cin", str(NP * NDM)), ("bool", "W_cout", str(NP * NDM)),
+                        ("double", "W_z", str(NP)), ("bool", "W_actin", str(NP)), ("bool", "W_actout", str(NP))],
+                bounded="%d data, %d targets, %d space dimensions; unwind %d with unwinding assertions" % (NP, NP, NDM, NP * NDM + 2),
+                claim=("CalcSimuTurningBands::_updateData2ToTarget, point-target branch (real text; the two data bases are ghosts with their own sample counts, coordinates and "
+                       "selections): a target receives a datum exactly when an active datum lies at ITS OWN location, and then the value of such a datum; masked targets untouched; "
+                       "no sample is read from the wrong data base or beyond its sample count"),
+                assumptions=["single variable, single simulation, no PGS/DGM", "grid-target branch excluded (isGrid() false)",
+                             "coordinates on the unit lattice {0,1}^ndim, field diagonal 1 (so that 'same location' is decided without floating-point reasoning)"],
+                canaries=[{"fn": "CalcSimuTurningBands::_updateData2ToTarget", "rx": r"if \(dist <= eps2\) ip_close = ip;", "rp": "ip_close = ip;", "expect": r"assertion"}])
+
+
 def units(tier):
-    return [unit_seed(), unit_uniform(), unit_int_uniform(), unit_degenerate_seed()]
+    return [unit_seed(), unit_uniform(), unit_int_uniform(), unit_degenerate_seed(), unit_gibbs_draw("GibbsMulti"), unit_gibbs_draw("GibbsMultiMono"), unit_data_to_target(2, 1 if tier == "quick" else 2)]
 
 
 META = {
     "level": "other",
-    "explanation": "Generator-state contracts (old-style generator): every draw is a pure function of (state, arguments); reproducibility from the seed follows.",
+    "explanation": "Generator-state contracts (old-style generator): every draw is a pure function of (state, arguments); reproducibility from the seed follows. Draw step of the Gibbs samplers: bounded samples always go through the truncated sampler with their standardised bounds. Final data-to-target assignment of the turning bands on point targets (bounded).",
     "trusted_base": ["CBMC 6.11", "IEEE-754 doubles as implemented by CBMC / cvc5"],
     "assumptions": [],
-    "not_covered": ["new-style generator (std::mt19937)", "law_gaussian and other laws (libm)", "seeding order inside the simulators", "conditioning exactness",
-                    "values within bounds for truncated Gaussian draws (exp/log/sqrt)", "FFT/SPDE/Gibbs simulators, facies"],
+    "not_covered": ["new-style generator (std::mt19937)", "law_gaussian and other laws (libm)", "seeding order inside the simulators", "conditioning by kriging (numerical)",
+                    "range of law_gaussian_between_bounds itself (exp/log/sqrt rejection sampling)", "truncated draws of spde.cpp", "FFT/SPDE simulators, facies", "grid-target branch of _updateData2ToTarget"],
 }
 MANIFEST = {
     "category": "other",
-    "text": "Contracts on the process-wide random generator: state transition and value drawn are functions of (state, arguments) only; integer draws stay in range.",
+    "text": "Contracts on the process-wide random generator (state transition and value drawn are functions of (state, arguments) only; integer draws stay in range), on the draw step of the Gibbs samplers (bounded samples use the truncated sampler with their standardised bounds) and a bounded unit on the data-to-target assignment of conditional turning bands (point targets).",
     "note": "Old-style generator only; wrap-around of the int product assumed (formally UB for large states).",
     "design_ref": "DESIGN.md 3 C13",
 }
